@@ -36,7 +36,9 @@ LEVEL_NOTE = ("proved about the protocol model; NOT modelled (hence the partial 
 RULE = ("workloads = histories of add / iterate(k pulls, then abandon) / close on Sorter (generic codec, distinct integer "
         "keys, 0-7 records, capacity 1..n+1, both spill policies, re-iteration, adding after iterating, close in the middle) "
         "and MafWriter with a sorting MafSorter (capacity lowered from outside, 0-6 records); each case first runs "
-        "fault-free, then once per I/O call of that run with that call failing (EIO; a second family with ENOENT), "
+        "fault-free, then once per I/O call of that run with that call failing (EIO; a second family with ENOENT; a third "
+        "where a failing read raises EOFError, as GzipFile.read does on a spill file that lost its tail), "
+        "plus oracle-only cases where a real spill file is cut on disk between spill and merge, "
         "either stopping at the first exception or continuing the history; every run ends with close() until it returns "
         "normally (at most 3 calls). Streams: valid (full iteration then close), defect (= the fault sweep itself), "
         "boundary (n multiple of cap, n=0, cap=1, pulls 0/1/n), adversarial (continue after the exception, close twice, "
@@ -50,6 +52,9 @@ ASSUMPTIONS = [
     "removes it first), with EIO the file stays",
     "a gzip handle whose owner (generator frame, merging iterator) is dropped is closed by CPython reference counting; "
     "the harness keeps no reference to exceptions or generators across the measurement",
+    "a spill file damaged between spill and merge is modelled by its symptom: the read that hits the damage raises "
+    "EOFError (flavour 2 of the schedule); the cases that really truncate a file on disk are judged by the oracle only "
+    "(raise, or return every record)",
     "after a failed spill (fault in gzip.open(w), write or the write handle's close) the stash is half written; further "
     "add/iteration on that sorter is not modelled (reported as unmodelled on both sides), close() is",
     "finding (not a violation of the property as worded, reported in the distribution table as "
@@ -72,11 +77,20 @@ WCOLS = ["Chromosome", "Start_Position", "End_Position", "Id"]
 
 
 # ------------------------------------------------------------ fault injection
+def _fl(case):
+    """flavour of the injected fault: 0 EIO, 1 ENOENT, 2 EOF (a failing read raises EOFError, as GzipFile.read does on
+    a spill file that lost its tail; other calls fail with EIO)"""
+    if "flavour" in case:
+        return case["flavour"]
+    return 1 if case.get("enoent") else 0
+
+
 class Inj:
-    def __init__(self, idx, enoent, tmp):
+    def __init__(self, idx, flavour, tmp):
         self.n = 0
         self.idx = idx
-        self.enoent = enoent
+        self.flavour = int(flavour)
+        self.enoent = self.flavour == 1
         self.tmp = tmp
         self.log = []
         self.hit = None
@@ -91,7 +105,9 @@ class Inj:
             return True
         return False
 
-    def err(self):
+    def err(self, code=None):
+        if self.flavour == 2 and code == 5:
+            return EOFError("Compressed file ended before the end-of-stream marker was reached (injected)")
         return OSError(errno.ENOENT if self.enoent else errno.EIO, "injected fault")
 
 
@@ -110,7 +126,7 @@ class Handle:
 
     def read(self, size=-1):
         if self._inj.tick(5):
-            raise self._inj.err()
+            raise self._inj.err(5)
         return self._real.read(size)
 
     def close(self):
@@ -208,7 +224,7 @@ class NoStdin:
 def _sorter_run(case, fault):
     os.makedirs(WORK, exist_ok=True)
     tmp = tempfile.mkdtemp(prefix="c18_", dir=WORK)
-    inj = Inj(fault[0] if fault else None, bool(fault[1]) if fault else False, tmp)
+    inj = Inj(fault[0] if fault else None, fault[1] if fault else 0, tmp)
     saved = install(inj)
     nostdin = NoStdin(bool(case.get("nostdin")))
     try:
@@ -267,7 +283,7 @@ def _sorter_run(case, fault):
         left = len(os.listdir(tmp))
         leak = len(_fds() - before)
         return {"obs": obs, "closes": closes, "final": [left, leak], "log": inj.log, "hit": inj.hit,
-                "_surfaced": surfaced, "_enoent": inj.enoent, "_leaked_fds": sorted(_fds() - before)}
+                "_surfaced": surfaced, "_enoent": inj.enoent, "_flavour": inj.flavour, "_leaked_fds": sorted(_fds() - before)}
     finally:
         nostdin.__exit__()
         uninstall(saved)
@@ -291,7 +307,7 @@ def _writer_run(case, fault):
     from maflib.validation import ValidationStringency
     os.makedirs(WORK, exist_ok=True)
     tmp = tempfile.mkdtemp(prefix="c18w_", dir=WORK)
-    inj = Inj(fault[0] if fault else None, bool(fault[1]) if fault else False, tmp)
+    inj = Inj(fault[0] if fault else None, fault[1] if fault else 0, tmp)
     saved = install(inj)
     saved_sorter = mw.MafSorter
     cap = case["cap"]
@@ -357,7 +373,7 @@ def _writer_run(case, fault):
         return {"adds": adds, "closes": closes, "out": None if was_tainted else outrecs,
                 "closed": None if was_tainted else closed, "_out": outrecs, "_closed": closed, "_junk_lines": junk,
                 "final": None if was_tainted else [left, leak], "log": None if was_tainted else inj.log, "hit": inj.hit,
-                "_surfaced": surfaced, "_enoent": inj.enoent, "_real_closes": real_closes, "_written": written,
+                "_surfaced": surfaced, "_enoent": inj.enoent, "_flavour": inj.flavour, "_real_closes": real_closes, "_written": written,
                 "_final": [left, leak], "_leaked_fds": sorted(_fds() - before)}
     finally:
         nostdin.__exit__()
@@ -366,11 +382,78 @@ def _writer_run(case, fault):
         shutil.rmtree(tmp, ignore_errors=True)
 
 
+def _trunc_run(case):
+    """no mocks for the damage: every spill file that exists before the merge is cut, on disk, to a shorter
+    non-zero length (first to a half, then - in a second run - by its last 3 bytes); the iteration / MafWriter.close
+    must raise or return every record"""
+    import maflib.writer as mw
+    from maflib.header import MafHeader
+    from maflib.record import MafRecord
+    from maflib.sorter import MafSorter
+    from maflib.validation import ValidationStringency
+    os.makedirs(WORK, exist_ok=True)
+    runs = []
+    for how in ("half", "tail"):
+        tmp = tempfile.mkdtemp(prefix="c18t_", dir=WORK)
+        inj = Inj(None, 0, tmp)
+        saved = install(inj)                      # no fault: only redirects the spill files to tmp
+        saved_sorter = mw.MafSorter
+        cap = case["cap"]
+        mw.MafSorter = lambda **kw: MafSorter(max_objects_in_ram=cap, **kw)
+        try:
+            want = list(range(len(case["keys"])))
+            got, exc = [], None
+            if case["writer"]:
+                header = MafHeader.from_lines(["#sort.order Coordinate"], validation_stringency=ValidationStringency.Silent)
+                out = _Out()
+                obj = mw.MafWriter.from_fd(out, header, validation_stringency=ValidationStringency.Silent, assume_sorted=False)
+                for i, k in enumerate(case["keys"]):
+                    obj += MafRecord.from_line("\t".join(["chr1", str(k + 1), str(k + 1), "r%d" % i]), column_names=WCOLS,
+                                               validation_stringency=ValidationStringency.Silent)
+            else:
+                obj, _ = G.make_generic({"flavour": "t/int"}, cap, True, tmp)
+                for i, k in enumerate(case["keys"]):
+                    obj.add((k, i, 0, 0))
+            files = sorted(os.listdir(tmp))
+            cut = size = 0
+            for f in files[:1]:
+                pth = os.path.join(tmp, f)
+                size = os.path.getsize(pth)
+                cut = max(1, size // 2) if how == "half" else max(1, size - 3)
+                with open(pth, "r+b") as h:
+                    h.truncate(cut)
+            try:
+                if case["writer"]:
+                    obj.close()
+                    text = out.final or ""
+                    got = [int(l.split("\t")[3][1:]) for l in text.splitlines()[2:] if len(l.split("\t")) == 4]
+                else:
+                    got = [x[1] for x in obj]
+            except Exception as e:  # noqa: BLE001
+                exc = G.exc_code(e)
+            if not case["writer"]:
+                try:
+                    obj.close()
+                except Exception:  # noqa: BLE001
+                    pass
+            left = len(os.listdir(tmp)) if (exc is None or not case["writer"]) else 0
+            if files:
+                runs.append({"what": ("writer" if case["writer"] else "sorter") + "/" + how, "exc": exc, "got": got,
+                             "want": want, "cut": cut, "size": size, "left": left})
+        finally:
+            mw.MafSorter = saved_sorter
+            uninstall(saved)
+            shutil.rmtree(tmp, ignore_errors=True)
+    return {"trunc": True, "_runs": runs}
+
+
 def run_impl(case):
+    if case["kind"] == "trunc":
+        return _trunc_run(case)
     one = _sorter_run if case["kind"] == "sorter" else _writer_run
     if case["fault"] == "sweep":
         base = one(case, None)
-        runs = [one(case, [i, 1 if case.get("enoent") else 0]) for i in range(len(base["log"] or []))]
+        runs = [one(case, [i, _fl(case)]) for i in range(len(base["log"] or []))]
         return {"base": base, "runs": runs}
     return {"base": one(case, case["fault"]), "runs": []}
 
@@ -380,6 +463,8 @@ def _cmp_run(r):
 
 
 def comparable(obs):
+    if "trunc" in obs:
+        return {"trunc": True}
     return {"base": _cmp_run(obs["base"]), "runs": [_cmp_run(r) for r in obs["runs"]]}
 
 
@@ -397,7 +482,9 @@ def _wops(case):
 
 
 def to_model(case):
-    eno = 1 if case.get("enoent") else 0
+    if case["kind"] == "trunc":
+        return [0, 1, 1, []]           # no model of a damaged file's content: judged by the oracle only
+    eno = _fl(case)
     if case["kind"] == "sorter":
         if case["fault"] == "sweep":
             return [3, case["cap"], 1 if case["always"] else 0, 1 if case["stop"] else 0, eno, _wops(case)]
@@ -429,6 +516,8 @@ def _m_writer(sx):
 
 
 def from_model(case, sx):
+    if case["kind"] == "trunc":
+        return {"trunc": True}
     one = _m_sorter if case["kind"] == "sorter" else _m_writer
     if case["fault"] == "sweep":
         return {"base": one(sx[0]), "runs": [one(r) for r in sx[1]]}
@@ -444,8 +533,10 @@ def _judge(case, r, label):
         tolerated = eno and hit == 8 and opname == "close"
         if tolerated:
             continue
-        if not exc or exc[0] != 8:
-            out.append("fault-not-surfaced %s: %s failed during %s, caller saw %r" % (label, CALLS[hit], opname, exc))
+        want = 9 if (r.get("_flavour") == 2 and hit == 5) else 8      # EOFError from a read, OSError otherwise
+        if not exc or exc[0] != want:
+            out.append("fault-not-surfaced %s: %s failed%s during %s, caller saw %r" % (
+                label, CALLS[hit], " with EOFError" if want == 9 else "", opname, exc))
     if case["kind"] == "sorter":
         # (b) close() until it returns normally: at most twice, then nothing remains
         if r["closes"][-1] != []:
@@ -481,9 +572,18 @@ def _judge(case, r, label):
 
 
 def oracle(case, obs):
+    if "trunc" in obs:
+        out = []
+        for t in obs["_runs"]:
+            if t["exc"] is None and sorted(t["got"]) != sorted(t["want"]):
+                out.append("truncated-spill-file-silently-lost-records %s: file cut to %d of %d bytes, no exception, %d of %d records returned" % (
+                    t["what"], t["cut"], t["size"], len(t["got"]), len(t["want"])))
+            if t["left"]:
+                out.append("spill-file-left %s: %d file(s) after close()" % (t["what"], t["left"]))
+        return out
     out = _judge(case, obs["base"], "fault=%s" % ("none" if case["fault"] in (None, "sweep") else case["fault"]))
     for i, r in enumerate(obs["runs"]):
-        out += _judge(case, r, "fault=[%d,%d](%s)" % (i, 1 if case.get("enoent") else 0, CALLS[r["hit"]] if r["hit"] is not None else "-"))
+        out += _judge(case, r, "fault=[%d,%d](%s)" % (i, _fl(case), CALLS[r["hit"]] if r["hit"] is not None else "-"))
     return out
 
 
@@ -494,6 +594,8 @@ def signature(case, violation):
 def classify(case, obs):
     if obs is None:
         return "%s/%s/error" % (case["stream"], case["kind"])
+    if "trunc" in obs:
+        return "%s/trunc/%s" % (case["stream"], "+".join(sorted(set("raised" if t["exc"] else "complete" for t in obs["_runs"]))) or "nospill")
     n = len(obs["base"]["log"] or [])
     size = "0" if n == 0 else ("1-15" if n < 16 else ("16-40" if n <= 40 else "41+"))
     allruns = [obs["base"]] + obs["runs"]
@@ -502,13 +604,15 @@ def classify(case, obs):
               and len(r["_out"]) > len(r["_written"]) for r in allruns)
     junk = any(r.get("_junk_lines") for r in allruns)
     return "%s/%s/%s/calls=%s%s%s" % (case["stream"], case["kind"], "sweep" if case["fault"] == "sweep" else "single",
-                                      size, ("/enoent" if case.get("enoent") else "") + ("/nostdin" if case.get("nostdin") else ""),
+                                      size, ["", "/enoent", "/eof"][_fl(case)] + ("/nostdin" if case.get("nostdin") else ""),
                                       ("/writer-never-closes-after-spill-fault" if unclosable else "")
                                       + ("/writer-retry-duplicates-records" if dup else "")
                                       + ("/writer-output-has-junk-line-after-spill-fault" if junk else ""))
 
 
 def nontrivial(case, obs):
+    if "trunc" in obs:
+        return bool(obs["_runs"])
     return len(obs["base"]["log"] or []) >= 8
 
 
@@ -541,7 +645,7 @@ def _history(rng, stream):
             ops.append(["close"])
     return {"stream": stream, "kind": "sorter", "cap": cap, "always": rng.random() < 0.6,
             "stop": stream != "adversarial" or rng.random() < 0.4, "ops": ops, "fault": "sweep",
-            "enoent": rng.random() < 0.25, "nostdin": rng.random() < 0.35}
+            "flavour": rng.choice([0, 0, 0, 1, 2, 2]), "nostdin": rng.random() < 0.35}
 
 
 def _wcase(rng, stream):
@@ -550,14 +654,21 @@ def _wcase(rng, stream):
     rng.shuffle(keys)
     cap = rng.randint(1, n + 1) if stream != "boundary" or not n else rng.choice([1, n, n + 1])
     return {"stream": stream, "kind": "writer", "cap": cap, "recs": [[k, i] for i, k in enumerate(keys)],
-            "fault": "sweep", "enoent": rng.random() < 0.25, "nostdin": rng.random() < 0.35}
+            "fault": "sweep", "flavour": rng.choice([0, 0, 0, 1, 2, 2]), "nostdin": rng.random() < 0.35}
 
 
 def generate(rng, n):
     out = []
     for _ in range(n):
         stream = rng.choice(["valid", "defect", "boundary", "adversarial"])
-        if rng.random() < 0.3:
+        r = rng.random()
+        if r < 0.08:
+            n_ = rng.randint(2, 9)
+            ks = list(range(n_))
+            rng.shuffle(ks)
+            out.append({"stream": stream, "kind": "trunc", "cap": rng.randint(1, max(1, n_ // 2)), "keys": ks,
+                        "writer": rng.random() < 0.4})
+        elif r < 0.36:
             out.append(_wcase(rng, stream))
         else:
             out.append(_history(rng, stream))
@@ -593,10 +704,25 @@ def corpus():
         {"stream": "corpus", "kind": "writer", "cap": 2, "recs": [[3, 0], [1, 1], [2, 2], [5, 3], [4, 4]], "fault": [39, 0]},
         {"stream": "corpus", "kind": "sorter", "cap": 2, "always": True, "stop": True, "ops": adds + [["iter", 7]],
          "fault": "sweep", "enoent": False, "nostdin": True},
+        # seeded change `except EOFError:` in _SortedIterator.__advance: a spill file that lost its tail was taken
+        # for an exhausted one and its records were silently dropped
+        {"stream": "corpus", "kind": "sorter", "cap": 2, "always": True, "stop": True, "ops": adds + [["iter", 7]],
+         "fault": [30, 2]},
+        {"stream": "corpus", "kind": "sorter", "cap": 2, "always": True, "stop": True, "ops": adds + [["iter", 7]],
+         "fault": "sweep", "flavour": 2},
+        {"stream": "corpus", "kind": "writer", "cap": 2, "recs": [[3, 0], [1, 1], [2, 2], [5, 3], [4, 4]], "fault": "sweep",
+         "flavour": 2},
+        {"stream": "corpus", "kind": "trunc", "cap": 2, "keys": [3, 1, 2, 5, 4, 0], "writer": False},
+        {"stream": "corpus", "kind": "trunc", "cap": 2, "keys": [3, 1, 2, 5, 4, 0], "writer": True},
     ]
 
 
 def shrink(case):
+    if case["kind"] == "trunc":
+        ks = case["keys"]
+        for i in range(len(ks)):
+            yield dict(case, keys=ks[:i] + ks[i + 1:])
+        return
     if case["kind"] == "sorter":
         ops = case["ops"]
         for i in range(len(ops)):
@@ -608,4 +734,4 @@ def shrink(case):
     if case["fault"] == "sweep":
         yield dict(case, fault=None)
         for i in range(60):
-            yield dict(case, fault=[i, 1 if case.get("enoent") else 0])
+            yield dict(case, fault=[i, _fl(case)])
